@@ -123,6 +123,8 @@ def detect_scratch(wt, n, props):
             cls = [l.strip() for l in o.splitlines() if l.strip().startswith("class=")]
             det = [l.strip() for l in o.splitlines() if l.strip().startswith("detail=")]
             res[p] = {"exit": rc, "class": cls[:1], "detail": [x[:300] for x in det[:1]], "s": round(time.time() - t0, 1)}
+            if os.environ.get("SEEDED_STOP_AT_FIRST") and rc == 1:
+                break
             if os.environ.get("SEEDED_KEEP_REPLAYS") and rc != 0:
                 import glob
                 os.makedirs(os.environ["SEEDED_KEEP_REPLAYS"], exist_ok=True)
